@@ -4,6 +4,7 @@ CONSTANTS
   AN = {"x"}
   RN = {"r"}
   MaxTypes = 2
+  Rich = TRUE
 VIEW View
 INVARIANTS InvWellFormed InvLookups CoherentAfterTwoWay
 PROPERTIES ErrLeavesUnchanged RemoveAbsentIsNoop TwoWayPost
